@@ -6,6 +6,7 @@ import (
 	"fmt"
 	"os"
 	"path/filepath"
+	"regexp"
 	"sort"
 	"strconv"
 	"strings"
@@ -64,6 +65,8 @@ func loadProps(verif string) (map[string]*PropConfig, error) {
 	}
 	return m, nil
 }
+
+var propLabelRe = regexp.MustCompile(`[:/](C\d{2,3})\.[A-Za-z_]`)
 
 type funcRun struct {
 	name string
@@ -279,6 +282,17 @@ func cmdCheck(args []string) int {
 		}
 		runs = append(runs, &funcRun{"lemma " + ln, l.Mode, fx, nil})
 		obls = append(obls, fx.obls...)
+	}
+	// obligations labelled "Cnn.<name>" belong to property Cnn only (a function may serve several properties)
+	{
+		var keep []*Obligation
+		for _, o := range obls {
+			if m := propLabelRe.FindStringSubmatch(o.Name); m != nil && m[1] != *prop {
+				continue
+			}
+			keep = append(keep, o)
+		}
+		obls = keep
 	}
 	dir, _ := os.MkdirTemp("", "govc-"+*prop)
 	defer os.RemoveAll(dir)
